@@ -239,3 +239,22 @@ SPECS["C19"] = {
     "outside": ["bodies or names containing a zip signature", "extra fields", "zip64", "archives with more than 7 entries", "APK markers"],
     "assumptions": ["no PK\\x03\\x04 outside real local headers (symbolic bytes are restricted to a..o)"],
 }
+
+SPECS["C12"] = {
+    "explanation": "charset.FromHTML through the real x/net/html tokenizer and charset.FromXML through the real encoding/xml RawToken (both executed from source, "
+                   "not stubbed) on declaration templates with a symbolic label over the token alphabet [A-Za-z0-9._+-], symbolic whitespace, three letter-case "
+                   "variants of tag/attribute names, five declaration syntaxes and seven prologues; the result must equal the lower-cased label "
+                   "(utf-16 labels map to utf-8, a BOM wins). The markup detectors are checked on the same kind of headers.",
+    "units": [
+        {"name": "html", "pkg": "magic", "harnesses": ["HC12HTML"], "quick_args": fix(labelLen=1), "thorough_args": fix(labelLen=3), "quick_shards": 48, "thorough_shards": 64},
+        {"name": "htmlk1", "pkg": "magic", "harnesses": ["HC12HTML"], "quick_args": fix(labelLen=0), "thorough_args": fix(labelLen=0), "quick_shards": 16, "thorough_shards": 16},
+        {"name": "utf16", "pkg": "magic", "harnesses": ["HC12UTF16"], "quick_shards": 4, "thorough_shards": 4},
+        {"name": "xml", "pkg": "magic", "harnesses": ["HC12XML"], "quick_args": fix(labelLen=1), "thorough_args": fix(labelLen=3), "quick_shards": 32, "thorough_shards": 64},
+        {"name": "markup", "pkg": "magic", "harnesses": ["HC12Markup"], "quick_shards": 16, "thorough_shards": 16},
+    ],
+    "must_reach": ["end", "assert:html-declared-charset-honoured", "assert:bom-wins-over-meta", "assert:utf16-meta-maps-to-utf8", "assert:xml-declared-encoding-honoured", "assert:html-markup-detected"],
+    "bounds": {"quick": {"label": "1 and 2 symbolic bytes (66^k labels)", "templates": "5 syntaxes x 7 prologues x 3 case variants x symbolic whitespace"},
+               "thorough": {"label": "1 and 4 symbolic bytes"}},
+    "outside": ["labels longer than the bound or with characters outside [A-Za-z0-9._+-]", "utf-16 prefixed labels other than the five listed", "more than one declaration", "declarations beyond the header"],
+    "assumptions": [],
+}
